@@ -497,6 +497,33 @@ func (x *Exec) localResolverAt(st *State, fr *Frame, at *ssa.BasicBlock, before 
 	return func(name string) (SV, bool) {
 		// phis in the header, then in dominating blocks (nearest first); a suffix __N skips the N nearest
 		// matches (the same-named variable of the N-th enclosing loop)
+		if strings.HasSuffix(name, "__first") {
+			// the value the source variable was given first (its earliest definition that dominates this point)
+			name = strings.TrimSuffix(name, "__first")
+			var first SV
+			found := false
+			for b := at; b != nil; b = b.Idom() {
+				for i := upTo(b) - 1; i >= 0; i-- {
+					dr, ok := b.Instrs[i].(*ssa.DebugRef)
+					if !ok {
+						continue
+					}
+					if id, ok := dr.Expr.(*ast.Ident); ok && id.Name == name {
+						v, ok := fr.vals[dr.X]
+						if !ok && isConstVal(dr.X) {
+							v, ok = fr.get(x, dr.X), true
+						}
+						if ok {
+							if dr.IsAddr {
+								v = st.load(x, v)
+							}
+							first, found = v, true
+						}
+					}
+				}
+			}
+			return first, found
+		}
 		if strings.HasSuffix(name, "__now") {
 			// the value the source variable has at this point: nearest definition or use in dominator order
 			// (a block's debug references come after its phis)
